@@ -80,6 +80,10 @@ def make_real(spans, rel, form):
         v = base.copy()
         v.eq_relation = real_rel(rel)
         return v
+    if form == "from_set":
+        # the span iterable is itself a SpanSet (an exact one, e.g. the result of an operator): the new set de-duplicates
+        # with its OWN relation
+        return SpanSet(SpanSet(list(spans)), eq_relation=real_rel(rel))
     if form == "pairs":
         return SpanSet(list(spans), eq_relation=real_rel(rel))
     if form == "gen":
@@ -108,7 +112,9 @@ def check_pair(a_spans, a_rel, b_spans, b_rel, form, u, res):
     A = make_real(a_spans, a_rel, form)
     B = make_real(b_spans, b_rel, "pairs" if form not in ("pairs",) and not form.startswith("copy:") else
                   ("two_seq" if form == "pairs" else form))
-    if form.startswith("copy:"):
+    if form == "from_set":
+        ka, kb = construct_ref(construct_ref(a_spans, "exact"), a_rel), construct_ref(b_spans, b_rel)
+    elif form.startswith("copy:"):
         r0 = form.split(":", 1)[1]
         ka, kb = construct_ref(a_spans, r0), construct_ref(b_spans, r0)   # stored spans were de-duplicated with r0
     else:
@@ -166,7 +172,7 @@ def run_shard(spec):
     res = ShardResult()
     ops, extra, u = operands(spec["tier"], spec["seed"])
     rng = common.rng_for(PROP, spec["seed"], "shard", spec["shard"])
-    forms = ["pairs", "two_seq", "gen", "pairs", "two_seq", "gen", "copy:exact", "copy:overlaps", "copy:partof", "copy:includes"]
+    forms = ["pairs", "two_seq", "gen", "pairs", "two_seq", "gen", "copy:exact", "copy:overlaps", "copy:partof", "copy:includes", "from_set", "from_set"]
     per_mech = {}
     idx = 0
 
